@@ -364,7 +364,7 @@ pub fn run(ctx: &Ctx) -> EvidenceMeta {
     {
         let mut items = vec![];
         let bases: &[usize] = if ctx.quick() {
-            &[16, 64, 100, 256, 1000, 1024, 4096, 10_000, 16_000]
+            &[16, 64, 100, 256, 1000, 1024, 4096]
         } else {
             &[8, 16, 20, 32, 48, 50, 64, 100, 128, 200, 250, 255, 256, 300, 400, 500, 512, 750, 1000, 1024, 1500, 2000, 2048, 2500, 3000, 4000, 4096, 5000, 8000, 8192, 10_000, 12_000, 16_000, 16_360]
         };
@@ -385,6 +385,17 @@ pub fn run(ctx: &Ctx) -> EvidenceMeta {
                 });
             }
         }
+        if ctx.quick() {
+            // one case at the far end (reading such a message back by position is quadratic in n)
+            items.push(Case::Prefix {
+                mtype: 1,
+                tid: 8_193,
+                prefix: (0..8_193usize).map(|i| WireAttr::Plain { ty: 0x4000 + (i % 0x3000) as u16, value: Hex(vec![]), pad: 0 }).collect(),
+                creds: Creds::Short { password: "count".into() },
+            });
+        }
+        // largest first, so that the long cases do not start last
+        items.reverse();
         ctx.enumerate("count-sweep-x-all-tails", &items, test);
     }
     ctx.proptest(
